@@ -384,6 +384,52 @@ def stressCase (toks : List String) : String :=
     (List.range p).all (fun t => ofProducer t m.s.delivered == (List.range n').map (fun i => t * 100000 + i))
   if okAll then s!"ok accepted={p * n} delivered={p * n}" else "viol model-stranded"
 
+/-! ### ChannelQueue alone under concurrent producers / consumers: `chqstress cap= p= k= n= mode= seed=`
+
+    The model runs a scaled-down instance on the channel substrate `Ch` under a seeded scheduler: a producer's
+    send is a `chTrySend` (a blocked `Put` / a retried `Offer` / `PutWithTimeout` = the send happens when there is
+    room), a consumer's receive a `chTryRecv`; with capacity 0 a send is a rendezvous with a receiver. -/
+
+structure ChSim where
+  ch : Ch
+  todo : List (List Nat)
+  got : List Nat
+  rng : Nat
+
+def chSimStep (m : ChSim) : ChSim :=
+  let rng := lcg m.rng
+  let m := { m with rng := rng }
+  if (rng / 65536) % 2 = 0 then
+    let np := m.todo.length
+    if np = 0 then m else
+    let i := (rng / 1048576) % np
+    match m.todo.getD i [] with
+    | [] => m
+    | v :: rest =>
+      if m.ch.cap = 0 then { m with todo := m.todo.set i rest, got := m.got ++ [v] }   -- rendezvous
+      else
+        let r := chTrySend m.ch v
+        if r.2 then { m with ch := r.1, todo := m.todo.set i rest } else m
+  else
+    match chTryRecv m.ch with
+    | (ch', .val x) => { m with ch := ch', got := m.got ++ [x] }
+    | _ => m
+
+def chSimLoop : Nat → ChSim → ChSim
+  | 0, m => m
+  | fuel + 1, m =>
+    if m.todo.all (·.isEmpty) && m.ch.buf.isEmpty then m else chSimLoop fuel (chSimStep m)
+
+def chqStressCase (toks : List String) : String :=
+  let cap := field toks "cap"; let p := field toks "p"; let n := field toks "n"; let seed := field toks "seed"
+  if p = 0 then "bad-case" else
+  let n' := min n (max 1 (120 / p))
+  let todo := (List.range p).map (fun t => (List.range n').map (fun i => t * 100000 + i))
+  let m := chSimLoop (p * n' * 64 + 4096) ⟨⟨cap, [], false⟩, todo, [], seed + 1⟩
+  let okAll := m.todo.all (·.isEmpty) && m.ch.buf.isEmpty && m.got.length == p * n' &&
+    (List.range p).all (fun t => ofProducer t m.got == (List.range n').map (fun i => t * 100000 + i))
+  if okAll then s!"ok accepted={p * n} delivered={p * n}" else "viol model-stranded"
+
 /-- protocol entry point -/
 def handle (line : String) : String :=
   let (head, body) := splitHead line
@@ -391,6 +437,7 @@ def handle (line : String) : String :=
   match toks with
   | "sched" :: _ => schedCase toks body
   | "chq" :: _ => chqCase toks body
+  | "chqstress" :: _ => chqStressCase toks
   | "stress" :: _ => stressCase toks
   | _ => "bad-case"
 
